@@ -43,6 +43,9 @@ first_missed = {
  'C09-e': 'trajectories were only unravelled for qubits; trajectory.qudit_reset* / dm_simulate.qudit_reset (ResetChannel(d), d = 2..4, every populated level symbolic) added afterwards',
  'C09-f': 'Kraus / superoperator / Choi descriptions were only compared for single operations; descriptions.moment_* / circuit_expanded (moments with operations stored in non-sorted qubit order) added afterwards',
  'C01-f': 'zero-qubit operations were not in the C01 gate menu; simulate.global_phase_op (global phase operation at every position, all entry points, split on/off) added afterwards',
+ 'C13-e': 'copies of the CH-form state and repeated CliffordSimulator.run were not exercised; chform.copy.* (no shared mutable state, visible at the concrete validation points) and chform.measure.simulator_run added afterwards',
+ 'C13-f': 'CH-form measurement was outside the first versions; chform.measure._measure / distribution (scripted random bits: draw count and distribution over ALL bit strings) added afterwards',
+ 'C02-e': 'CH-form measurement was outside the first versions; chform.measure.project_Z / _measure / measure (arbitrary valid 2-qubit CH state, post-state = normalised projection) added afterwards and shared with C02',
  'C19-b': 'the concrete KAK fall-back menu only had gates with interaction (x,0,0); matrix-only gates with generic coefficients added afterwards',
 }
 cross_only = {'C03-e', 'C04-f'}  # caught by a neighbouring property's check from the start, never by their own
